@@ -147,6 +147,56 @@ def check_one(prog, mode, html):
     return None
 
 
+def strip_echo(prog):
+    """the same program without the id echo at the start of every component template"""
+    from mc.prog import Program
+
+    comps = {n: CompSpec(n, tuple(c.template[3:]), {}, ()) for n, c in prog.comps.items()}
+    return Program(prog.page, comps, prog.ctx)
+
+
+def check_structure(prog, mode, html):
+    """Echo-free second pass: ids cannot be mapped to instances by name, so the *structure* is compared - the family of
+    element sets {elements that are roots of instance I} must equal, as a multiset, the family {elements carrying id X}.
+    (With the echo, a component template never starts with a nested component - the echo-free pass covers those.)"""
+    exp, elems = expected_roots(prog, mode)
+    if exp[0] != "ok":
+        return None
+    rp = RealParser()
+    rp.feed(html)
+    rp.close()
+    if [n for n, _ in rp.elems] != [n for n, _ in elems]:
+        return ("structure-elements", f"elements differ: expected {[n for n, _ in elems]}, got {[n for n, _ in rp.elems]}")
+    want, got = {}, {}
+    for pos, (_, insts) in enumerate(elems):
+        for i in insts:
+            want.setdefault(i, set()).add(pos)
+    for pos, (_, ids) in enumerate(rp.elems):
+        for i in ids:
+            got.setdefault(i, set()).add(pos)
+    w_ = sorted(sorted(v) for v in want.values())
+    g_ = sorted(sorted(v) for v in got.values())
+    if w_ != g_:
+        names = [n for n, _ in elems]
+        return ("structure-roots", f"per-instance root element sets expected {[[names[p] for p in v] for v in w_]}, "
+                                   f"per-id element sets got {[[names[p] for p in v] for v in g_]}")
+    return None
+
+
+def second_pass(prog, mode, h, agg, tag):
+    p2 = strip_echo(prog)
+    h.install(p2)
+    obs = h.render_page(p2)
+    boot.clear_render_registries()
+    agg.transitions += 1
+    if obs[0] != "ok":
+        return
+    bad = check_structure(p2, mode, obs[1])
+    agg.validated += 1
+    if bad:
+        agg.fail(f"{mode}:{tag}{bad[0]}:{core_of(p2)}", f"[{mode}, without id echo] {bad[1]}", {"mode": mode, "program": p2.to_json(mode), "spec": prog_spec(p2), "echo": False})
+
+
 def worker(w, W, payload):
     pfkw, N, skip, mode, _ = payload
     boot.set_components_setting(context_behavior=mode)
@@ -183,6 +233,8 @@ def worker(w, W, payload):
         if bad:
             agg.fail(f"{mode}:{bad[0]}:{core_of(prog)}", f"[{mode}] {bad[1]}",
                      {"mode": mode, "program": prog.to_json(mode), "spec": prog_spec(prog)})
+        elif nel:
+            second_pass(prog, mode, h, agg, "")
         if agg.states == 40 and w == 5:
             agg.sample({"mode": mode, "page": prog.page_source(), "components": {n: c.source() for n, c in prog.comps.items()},
                         "html": obs[1][:400]})
@@ -254,6 +306,8 @@ def roots_worker(w, W, payload):
         agg.observe(re.sub(r"a[0-9a-f]{5}", "ID", obs[1]))
         if bad:
             agg.fail(f"{mode}:roots-family:{bad[0]}:{core_of(prog)}", f"[{mode}] {bad[1]}", {"mode": mode, "program": prog.to_json(mode), "spec": prog_spec(prog)})
+        else:
+            second_pass(prog, mode, h, agg, "roots-family:")
         if agg.states == 12 and w == 3:
             agg.sample({"mode": mode, "page": prog.page_source(), "components": {n: c.source() for n, c in prog.comps.items()}, "html": obs[1][:400]})
     h.uninstall()
@@ -367,7 +421,7 @@ def replay(ctx, case):
         return problem is None
     mode = case["mode"]
     boot.set_components_setting(context_behavior=mode)
-    prog = prog_from_spec(case["spec"], lambda n, t: CompSpec(n, t, {"my_id": ("id",)}, ()))
+    prog = prog_from_spec(case["spec"], lambda n, t: CompSpec(n, t, {"my_id": ("id",)} if case.get("echo", True) else {}, ()))
     h = Harness()
     h.install(prog)
     obs = h.render_page(prog)
@@ -379,6 +433,6 @@ def replay(ctx, case):
     print("html:    ", obs[1] if obs[0] == "ok" else obs)
     if obs[0] != "ok":
         return False
-    bad = check_one(prog, mode, obs[1])
+    bad = check_one(prog, mode, obs[1]) if case.get("echo", True) else check_structure(prog, mode, obs[1])
     print("verdict: ", bad)
     return bad is None
